@@ -250,19 +250,20 @@ mod v_wire_cksum {
         equiv::<23>(20);
     }
 
-    // @harness props=C08 cfg=KW tier=q to=900 mem=6 unwind=10 opts=nomem covers=2 funcs=wire::checksum::data;wire::checksum::combine bounds=length_0..=12;_every_even_split_point;_start_offset_0..=1;_all_contents
+    // `data` has no alignment-dependent path (`as_chunks` splits by length, words are read with
+    // `from_ne_bytes` from byte arrays), so the split harness starts at offset 0 of a symbolic array.
+    // @harness props=C08 cfg=KW tier=q to=900 mem=6 unwind=10 opts=nomem covers=2 funcs=wire::checksum::data;wire::checksum::combine bounds=length_0..=12;_every_even_split_point;_all_contents
     #[kani::proof]
     pub(crate) fn cksum_split() {
-        let buf: [u8; 13] = kani::any();
-        let off: usize = kani::any();
+        let buf: [u8; 12] = kani::any();
         let len: usize = kani::any();
         let s: usize = kani::any();
-        kani::assume(off <= 1 && len <= 12 && s <= len && s % 2 == 0);
-        let d = &buf[off..off + len];
+        kani::assume(len <= 12 && s <= len && s % 2 == 0);
+        let d = &buf[..len];
         let whole = checksum::data(d);
         let parts = checksum::combine(&[checksum::data(&d[..s]), checksum::data(&d[s..])]);
         assert!(ones_eq(parts, whole), "prop:c08_sum_of_even_split_equals_sum_of_whole");
-        kani::cover!(len == 11 && s == 6 && off == 1, "odd total, split in the middle");
+        kani::cover!(len == 11 && s == 6, "odd total, split in the middle");
         kani::cover!(s == len && len == 12, "empty second part");
     }
 
@@ -325,15 +326,635 @@ mod v_wire_cksum {
         pseudo_v6(0x0fff, 0, false, false);
     }
 
-    // @harness props=C08 cfg=KW tier=q to=600 mem=4 unwind=22 opts=nomem covers=1 funcs=wire::checksum::pseudo_header_v6 bounds=source_bytes_12..16_and_destination_bytes_0..8_symbolic,_rest_fixed_non-zero
+    // @harness props=C08 cfg=KW tier=q to=600 mem=4 unwind=22 opts=nomem covers=1 funcs=wire::checksum::pseudo_header_v6 bounds=source_bytes_12..16_and_destination_bytes_0..4_symbolic,_rest_fixed_non-zero
     #[kani::proof]
     pub(crate) fn cksum_pseudo_v6_w2() {
-        pseudo_v6(0xf000, 0x00ff, false, false);
+        pseudo_v6(0xf000, 0x000f, false, false);
     }
 
-    // @harness props=C08 cfg=KW tier=q to=600 mem=4 unwind=22 opts=nomem covers=1 funcs=wire::checksum::pseudo_header_v6 bounds=destination_bytes_8..16,_all_256_next-header_values,_all_lengths_0..=65535_symbolic,_rest_fixed_non-zero
+    // @harness props=C08 cfg=KW tier=q to=600 mem=4 unwind=22 opts=nomem covers=1 funcs=wire::checksum::pseudo_header_v6 bounds=destination_bytes_4..12_symbolic,_rest_fixed_non-zero
     #[kani::proof]
     pub(crate) fn cksum_pseudo_v6_w3() {
-        pseudo_v6(0, 0xff00, true, true);
+        pseudo_v6(0, 0x0ff0, false, false);
+    }
+
+    // @harness props=C08 cfg=KW tier=q to=600 mem=4 unwind=22 opts=nomem covers=1 funcs=wire::checksum::pseudo_header_v6 bounds=destination_bytes_12..16,_all_256_next-header_values,_all_lengths_0..=65535_symbolic,_rest_fixed_non-zero
+    #[kani::proof]
+    pub(crate) fn cksum_pseudo_v6_w4() {
+        pseudo_v6(0, 0xf000, true, true);
+    }
+
+    // ================================================================== packet builders
+
+    /// IPv4 field bytes: 0..4 src, 4..8 dst, 8 protocol, 9 hop limit, 10..12 payload length
+    const IPV4_FIX: [u8; 12] = [10, 1, 2, 3, 172, 16, 200, 9, 17, 64, 0x01, 0x2c];
+
+    fn ipv4_repr(mask: u32) -> Ipv4Repr {
+        let f = pick(IPV4_FIX, mask);
+        let payload_len = be16(f[10], f[11]) as usize;
+        // `emit` computes `20u16 + payload_len as u16`; a datagram cannot be longer than 65535
+        kani::assume(payload_len <= 65535 - 20);
+        Ipv4Repr {
+            src_addr: Ipv4Address::new(f[0], f[1], f[2], f[3]),
+            dst_addr: Ipv4Address::new(f[4], f[5], f[6], f[7]),
+            next_header: IpProtocol::from(f[8]),
+            hop_limit: f[9],
+            payload_len,
+        }
+    }
+
+    /// emits the 20-byte header in front of 8 fixed payload bytes (payload_len forced to 8 when `with_payload`)
+    fn ipv4_emit(mask: u32, with_payload: bool, caps: &ChecksumCapabilities) -> [u8; 28] {
+        let mut repr = ipv4_repr(mask);
+        if with_payload {
+            repr.payload_len = 8;
+        }
+        let mut buf: [u8; 28] = kani::any(); // stale buffer contents must not matter
+        let mut i = 0;
+        while i < 8 {
+            buf[20 + i] = PAY_FIX[i];
+            i += 1;
+        }
+        repr.emit(&mut Ipv4Packet::new_unchecked(&mut buf[..]), caps);
+        buf
+    }
+
+    /// echo field bytes: 0..2 ident, 2..4 sequence number
+    const ECHO_FIX: [u8; 4] = [0x12, 0x34, 0xab, 0xcd];
+
+    /// ICMPv4 / ICMPv6 echo into `buf[..8 + plen]`; returns the packet length
+    fn echo_emit(
+        v6: bool,
+        src: &[u8; 16],
+        dst: &[u8; 16],
+        fmask: u32,
+        pmask: u32,
+        plen: usize,
+        caps: &ChecksumCapabilities,
+        buf: &mut [u8; 16],
+    ) -> usize {
+        let f = pick(ECHO_FIX, fmask);
+        let data = pick(PAY_FIX, pmask);
+        let reply: bool = kani::any();
+        let ident = be16(f[0], f[1]);
+        let seq_no = be16(f[2], f[3]);
+        let n = 8 + plen;
+        if v6 {
+            let repr = if reply {
+                Icmpv6Repr::EchoReply { ident, seq_no, data: &data[..plen] }
+            } else {
+                Icmpv6Repr::EchoRequest { ident, seq_no, data: &data[..plen] }
+            };
+            assert!(repr.buffer_len() == n, "prop:c08_harness_shape_icmpv6");
+            repr.emit(
+                &Ipv6Address::from(*src),
+                &Ipv6Address::from(*dst),
+                &mut Icmpv6Packet::new_unchecked(&mut buf[..n]),
+                caps,
+            );
+        } else {
+            let repr = if reply {
+                Icmpv4Repr::EchoReply { ident, seq_no, data: &data[..plen] }
+            } else {
+                Icmpv4Repr::EchoRequest { ident, seq_no, data: &data[..plen] }
+            };
+            assert!(repr.buffer_len() == n, "prop:c08_harness_shape_icmpv4");
+            repr.emit(&mut Icmpv4Packet::new_unchecked(&mut buf[..n]), caps);
+        }
+        n
+    }
+
+    fn ref_echo_ok(v6: bool, src: &[u8; 16], dst: &[u8; 16], seg: &[u8]) -> bool {
+        if v6 { ref_l4_ok(true, src, dst, 58, seg) } else { ref_sum(seg) == 0xffff }
+    }
+
+    fn echo_parse_ok(v6: bool, src: &[u8; 16], dst: &[u8; 16], seg: &[u8], caps: &ChecksumCapabilities) -> bool {
+        if v6 {
+            Icmpv6Repr::parse(&Ipv6Address::from(*src), &Ipv6Address::from(*dst), &Icmpv6Packet::new_unchecked(seg), caps).is_ok()
+        } else {
+            Icmpv4Repr::parse(&Icmpv4Packet::new_unchecked(seg), caps).is_ok()
+        }
+    }
+
+    /// UDP field bytes: 0..2 source port, 2..4 destination port
+    const PORT_FIX: [u8; 4] = [0xbf, 0x01, 0x14, 0xe9];
+
+    fn udp_emit(
+        v6: bool,
+        src: &[u8; 16],
+        dst: &[u8; 16],
+        fmask: u32,
+        pmask: u32,
+        plen: usize,
+        caps: &ChecksumCapabilities,
+        buf: &mut [u8; 16],
+    ) -> usize {
+        let f = pick(PORT_FIX, fmask);
+        let data = pick(PAY_FIX, pmask);
+        let repr = UdpRepr { src_port: be16(f[0], f[1]), dst_port: be16(f[2], f[3]) };
+        // documented: the destination port cannot be zero
+        kani::assume(repr.dst_port != 0);
+        let n = 8 + plen;
+        repr.emit(
+            &mut UdpPacket::new_unchecked(&mut buf[..n]),
+            &ip_addr(v6, src),
+            &ip_addr(v6, dst),
+            plen,
+            |b| b.copy_from_slice(&data[..plen]),
+            caps,
+        );
+        n
+    }
+
+    fn udp_parse_ok(v6: bool, src: &[u8; 16], dst: &[u8; 16], seg: &[u8], caps: &ChecksumCapabilities) -> bool {
+        UdpRepr::parse(&UdpPacket::new_unchecked(seg), &ip_addr(v6, src), &ip_addr(v6, dst), caps).is_ok()
+    }
+
+    /// TCP field bytes: 0..2 source port, 2..4 destination port, 4..8 sequence number,
+    /// 8..12 acknowledgement number, 12..14 window
+    const TCP_FIX: [u8; 14] = [0xc3, 0x50, 0x01, 0xbb, 0x7a, 0x11, 0xf0, 0x0d, 0x31, 0x41, 0x59, 0x26, 0x72, 0x10];
+    /// option bytes; shape 1: 0..2 MSS, 2 window scale, 3..7 TSval, 7..11 TSecr; shape 2: two SACK blocks 0..8, 8..16
+    const OPT_FIX: [u8; 16] = [0x05, 0xb4, 0x07, 0x1d, 0x2e, 0x3f, 0x40, 0x51, 0x62, 0x73, 0x84, 0x95, 0xa6, 0xb7, 0xc8, 0xd9];
+
+    fn be32(b: &[u8], i: usize) -> u32 {
+        ((b[i] as u32) << 24) | ((b[i + 1] as u32) << 16) | ((b[i + 2] as u32) << 8) | b[i + 3] as u32
+    }
+
+    /// shape 0: no options (header 20); shape 1: MSS + WS + SACK-permitted + timestamps (header 40);
+    /// shape 2: ACK with SACK blocks in slots 0 and 2 (header 40).  Control flag and ACK presence symbolic
+    /// when `ctl_sym`.
+    fn tcp_emit(
+        v6: bool,
+        src: &[u8; 16],
+        dst: &[u8; 16],
+        fmask: u32,
+        omask: u32,
+        pmask: u32,
+        shape: u8,
+        ctl_sym: bool,
+        plen: usize,
+        caps: &ChecksumCapabilities,
+        buf: &mut [u8; 48],
+    ) -> usize {
+        let f = pick(TCP_FIX, fmask);
+        let o = pick(OPT_FIX, omask);
+        let data = pick(PAY_FIX, pmask);
+        let c: u8 = if ctl_sym { kani::any() } else { 1 };
+        let control = match c {
+            0 => TcpControl::None,
+            1 => TcpControl::Psh,
+            2 => TcpControl::Syn,
+            3 => TcpControl::Fin,
+            _ => TcpControl::Rst,
+        };
+        let has_ack: bool = if ctl_sym && shape != 2 { kani::any() } else { true };
+        let repr = TcpRepr {
+            src_port: be16(f[0], f[1]),
+            dst_port: be16(f[2], f[3]),
+            control,
+            seq_number: TcpSeqNumber(be32(&f, 4) as i32),
+            ack_number: if has_ack { Some(TcpSeqNumber(be32(&f, 8) as i32)) } else { None },
+            window_len: be16(f[12], f[13]),
+            window_scale: if shape == 1 { Some(o[2]) } else { None },
+            max_seg_size: if shape == 1 { Some(be16(o[0], o[1])) } else { None },
+            sack_permitted: shape == 1,
+            sack_ranges: if shape == 2 {
+                [Some((be32(&o, 0), be32(&o, 4))), None, Some((be32(&o, 8), be32(&o, 12)))]
+            } else {
+                [None, None, None]
+            },
+            timestamp: if shape == 1 { Some(TcpTimestampRepr::new(be32(&o, 3), be32(&o, 7))) } else { None },
+            payload: &data[..plen],
+        };
+        // documented: ports are non-zero, the shift count is at most 14
+        kani::assume(repr.src_port != 0 && repr.dst_port != 0 && o[2] <= 14);
+        let hl = if shape == 0 { 20 } else { 40 };
+        assert!(repr.header_len() == hl, "prop:c08_harness_shape_tcp");
+        let n = hl + plen;
+        repr.emit(&mut TcpPacket::new_unchecked(&mut buf[..n]), &ip_addr(v6, src), &ip_addr(v6, dst), caps);
+        n
+    }
+
+    fn tcp_parse_ok(v6: bool, src: &[u8; 16], dst: &[u8; 16], seg: &[u8], caps: &ChecksumCapabilities) -> bool {
+        TcpRepr::parse(&TcpPacket::new_unchecked(seg), &ip_addr(v6, src), &ip_addr(v6, dst), caps).is_ok()
+    }
+
+    // ================================================================== (b) emitted packets verify
+
+    fn emit_valid_ipv4(mask: u32) {
+        let buf = ipv4_emit(mask, false, &ChecksumCapabilities::default());
+        assert!(buf[0] == 0x45, "prop:c08_emitted_ipv4_header_is_20_bytes");
+        assert!(ref_ipv4_ok(&buf[..20]), "prop:c08_emitted_ipv4_header_checksum_verifies");
+        kani::cover!(be16(buf[10], buf[11]) == 0xffff, "emitted header checksum ffff");
+        kani::cover!(be16(buf[10], buf[11]) == 0x0001, "emitted header checksum 0001");
+    }
+
+    // @harness props=C08 cfg=KW tier=q to=600 mem=4 unwind=14 opts=nomem covers=2 funcs=wire::Ipv4Repr::emit;wire::Ipv4Packet::fill_checksum bounds=every_Ipv4Repr_field_symbolic_(addresses,_protocol,_hop_limit,_payload_length_0..=65515):_6_words
+    #[kani::proof]
+    pub(crate) fn emit_valid_ipv4_all() {
+        emit_valid_ipv4(0xfff);
+    }
+
+    fn emit_valid_echo(v6: bool, smask: u32, dmask: u32, fmask: u32, pmask: u32, plen_max: usize, plen_sym: bool) {
+        let src = pick(SRC_FIX, smask);
+        let dst = pick(DST_FIX, dmask);
+        let plen = if plen_sym { any_le(plen_max) } else { plen_max };
+        let mut buf: [u8; 16] = kani::any();
+        let n = echo_emit(v6, &src, &dst, fmask, pmask, plen, &ChecksumCapabilities::default(), &mut buf);
+        assert!(ref_echo_ok(v6, &src, &dst, &buf[..n]), "prop:c08_emitted_icmp_checksum_verifies");
+        kani::cover!(be16(buf[2], buf[3]) == 0xffff, "emitted checksum ffff");
+    }
+
+    // @harness props=C08 cfg=KW tier=q to=600 mem=4 unwind=12 opts=nomem covers=1 funcs=wire::Icmpv4Repr::emit;wire::Icmpv4Packet::fill_checksum bounds=echo_request/reply,_6_data_bytes;_ident,_seq,_data_0..6_symbolic_(5_words)
+    #[kani::proof]
+    pub(crate) fn emit_valid_icmpv4_w1() {
+        emit_valid_echo(false, 0, 0, 0xf, 0x3f, 6, false);
+    }
+
+    // @harness props=C08 cfg=KW tier=q to=600 mem=4 unwind=12 opts=nomem covers=1 funcs=wire::Icmpv4Repr::emit;wire::Icmpv4Packet::fill_checksum bounds=echo_request/reply,_data_length_0..=7_symbolic;_seq_and_data_2..7_symbolic
+    #[kani::proof]
+    pub(crate) fn emit_valid_icmpv4_w2() {
+        emit_valid_echo(false, 0, 0, 0xc, 0x7c, 7, true);
+    }
+
+    // @harness props=C08 cfg=KW tier=q to=600 mem=4 unwind=24 opts=nomem covers=1 funcs=wire::Icmpv6Repr::emit;wire::Icmpv6Packet::fill_checksum bounds=echo_request/reply,_4_data_bytes;_source_bytes_0..12_symbolic
+    #[kani::proof]
+    pub(crate) fn emit_valid_icmpv6_w1() {
+        emit_valid_echo(true, 0x0fff, 0, 0, 0, 4, false);
+    }
+
+    // @harness props=C08 cfg=KW tier=q to=600 mem=4 unwind=24 opts=nomem covers=1 funcs=wire::Icmpv6Repr::emit;wire::Icmpv6Packet::fill_checksum bounds=echo_request/reply,_4_data_bytes;_source_bytes_12..16_and_destination_bytes_0..8_symbolic
+    #[kani::proof]
+    pub(crate) fn emit_valid_icmpv6_w2() {
+        emit_valid_echo(true, 0xf000, 0x00ff, 0, 0, 4, false);
+    }
+
+    // @harness props=C08 cfg=KW tier=q to=600 mem=4 unwind=24 opts=nomem covers=1 funcs=wire::Icmpv6Repr::emit;wire::Icmpv6Packet::fill_checksum bounds=echo_request/reply,_4_data_bytes;_destination_bytes_8..16,_ident,_seq_symbolic
+    #[kani::proof]
+    pub(crate) fn emit_valid_icmpv6_w3() {
+        emit_valid_echo(true, 0, 0xff00, 0xf, 0, 4, false);
+    }
+
+    // @harness props=C08 cfg=KW tier=q to=600 mem=4 unwind=24 opts=nomem covers=1 funcs=wire::Icmpv6Repr::emit;wire::Icmpv6Packet::fill_checksum bounds=echo_request/reply,_data_length_0..=7_symbolic;_ident_and_data_0..7_symbolic
+    #[kani::proof]
+    pub(crate) fn emit_valid_icmpv6_w4() {
+        emit_valid_echo(true, 0, 0, 0x3, 0x7f, 7, true);
+    }
+
+    fn emit_valid_udp(v6: bool, smask: u32, dmask: u32, fmask: u32, pmask: u32, plen_max: usize, plen_sym: bool) {
+        let src = pick(SRC_FIX, smask);
+        let dst = pick(DST_FIX, dmask);
+        let plen = if plen_sym { any_le(plen_max) } else { plen_max };
+        let mut buf: [u8; 16] = kani::any();
+        let n = udp_emit(v6, &src, &dst, fmask, pmask, plen, &ChecksumCapabilities::default(), &mut buf);
+        assert!(be16(buf[4], buf[5]) as usize == n, "prop:c08_emitted_udp_length_field");
+        assert!(ref_udp_ok(v6, &src, &dst, &buf[..n]), "prop:c08_emitted_udp_checksum_verifies");
+        // RFC 768: a computed checksum of zero is transmitted as all ones; zero means "no checksum"
+        assert!(be16(buf[6], buf[7]) != 0, "prop:c08_emitted_udp_checksum_never_the_no_checksum_value");
+        kani::cover!(be16(buf[6], buf[7]) == 0xffff, "computed zero transmitted as ffff");
+    }
+
+    // @harness props=C08 cfg=KW tier=q to=600 mem=4 unwind=12 opts=nomem covers=1 funcs=wire::UdpRepr::emit;wire::UdpPacket::fill_checksum bounds=4_payload_bytes;_both_IPv4_addresses_and_both_ports_symbolic_(6_words)
+    #[kani::proof]
+    pub(crate) fn emit_valid_udp4_w1() {
+        emit_valid_udp(false, 0xf, 0xf, 0xf, 0, 4, false);
+    }
+
+    // @harness props=C08 cfg=KW tier=q to=600 mem=4 unwind=12 opts=nomem covers=1 funcs=wire::UdpRepr::emit;wire::UdpPacket::fill_checksum bounds=payload_length_0..=7_symbolic;_source_port_and_payload_0..7_symbolic
+    #[kani::proof]
+    pub(crate) fn emit_valid_udp4_w2() {
+        emit_valid_udp(false, 0, 0, 0x3, 0x7f, 7, true);
+    }
+
+    // @harness props=C08 cfg=KW tier=q to=600 mem=4 unwind=24 opts=nomem covers=1 funcs=wire::UdpRepr::emit;wire::UdpPacket::fill_checksum bounds=4_payload_bytes;_source_bytes_0..12_symbolic
+    #[kani::proof]
+    pub(crate) fn emit_valid_udp6_w1() {
+        emit_valid_udp(true, 0x0fff, 0, 0, 0, 4, false);
+    }
+
+    // @harness props=C08 cfg=KW tier=q to=600 mem=4 unwind=24 opts=nomem covers=1 funcs=wire::UdpRepr::emit;wire::UdpPacket::fill_checksum bounds=4_payload_bytes;_source_bytes_12..16_and_destination_bytes_0..8_symbolic
+    #[kani::proof]
+    pub(crate) fn emit_valid_udp6_w2() {
+        emit_valid_udp(true, 0xf000, 0x00ff, 0, 0, 4, false);
+    }
+
+    // @harness props=C08 cfg=KW tier=q to=600 mem=4 unwind=24 opts=nomem covers=1 funcs=wire::UdpRepr::emit;wire::UdpPacket::fill_checksum bounds=4_payload_bytes;_destination_bytes_8..16_and_both_ports_symbolic
+    #[kani::proof]
+    pub(crate) fn emit_valid_udp6_w3() {
+        emit_valid_udp(true, 0, 0xff00, 0xf, 0, 4, false);
+    }
+
+    // @harness props=C08 cfg=KW tier=q to=600 mem=4 unwind=24 opts=nomem covers=1 funcs=wire::UdpRepr::emit;wire::UdpPacket::fill_checksum bounds=payload_length_0..=7_symbolic;_destination_port_and_payload_0..7_symbolic
+    #[kani::proof]
+    pub(crate) fn emit_valid_udp6_w4() {
+        emit_valid_udp(true, 0, 0, 0xc, 0x7f, 7, true);
+    }
+
+    fn emit_valid_tcp(v6: bool, smask: u32, dmask: u32, fmask: u32, omask: u32, pmask: u32, shape: u8, ctl_sym: bool, plen_max: usize, plen_sym: bool) {
+        let src = pick(SRC_FIX, smask);
+        let dst = pick(DST_FIX, dmask);
+        let plen = if plen_sym { any_le(plen_max) } else { plen_max };
+        let mut buf: [u8; 48] = kani::any();
+        let n = tcp_emit(v6, &src, &dst, fmask, omask, pmask, shape, ctl_sym, plen, &ChecksumCapabilities::default(), &mut buf);
+        assert!(((buf[12] >> 4) as usize) * 4 + plen == n, "prop:c08_emitted_tcp_data_offset");
+        assert!(ref_l4_ok(v6, &src, &dst, 6, &buf[..n]), "prop:c08_emitted_tcp_checksum_verifies");
+        kani::cover!(be16(buf[16], buf[17]) == 0xffff, "emitted checksum ffff");
+    }
+
+    // @harness props=C08 cfg=KW tier=q to=600 mem=4 unwind=16 opts=nomem covers=1 funcs=wire::TcpRepr::emit;wire::TcpPacket::fill_checksum bounds=no_options,_4_payload_bytes;_both_IPv4_addresses_and_both_ports_symbolic_(6_words)
+    #[kani::proof]
+    pub(crate) fn emit_valid_tcp4_w1() {
+        emit_valid_tcp(false, 0xf, 0xf, 0x000f, 0, 0, 0, false, 4, false);
+    }
+
+    // @harness props=C08 cfg=KW tier=q to=600 mem=4 unwind=16 opts=nomem covers=1 funcs=wire::TcpRepr::emit;wire::TcpPacket::fill_checksum bounds=no_options,_4_payload_bytes;_seq,_ack,_window,_control_flag_and_ACK_presence_symbolic_(6_words)
+    #[kani::proof]
+    pub(crate) fn emit_valid_tcp4_w2() {
+        emit_valid_tcp(false, 0, 0, 0x3ff0, 0, 0, 0, true, 4, false);
+    }
+
+    // @harness props=C08 cfg=KW tier=q to=600 mem=4 unwind=24 opts=nomem covers=1 funcs=wire::TcpRepr::emit;wire::TcpPacket::fill_checksum;wire::TcpOption::emit bounds=MSS+WS+SACK-permitted+timestamp_options,_payload_length_0..=5_symbolic;_MSS,_WS_and_payload_0..5_symbolic
+    #[kani::proof]
+    pub(crate) fn emit_valid_tcp4_w3() {
+        emit_valid_tcp(false, 0, 0, 0, 0x007, 0x1f, 1, false, 5, true);
+    }
+
+    // @harness props=C08 cfg=KW tier=q to=600 mem=4 unwind=24 opts=nomem covers=1 funcs=wire::TcpRepr::emit;wire::TcpPacket::fill_checksum;wire::TcpOption::emit bounds=MSS+WS+SACK-permitted+timestamp_options,_2_payload_bytes;_TSval,_TSecr,_control_flag_symbolic
+    #[kani::proof]
+    pub(crate) fn emit_valid_tcp4_w4() {
+        emit_valid_tcp(false, 0, 0, 0, 0x7f8, 0, 1, true, 2, false);
+    }
+
+    // @harness props=C08 cfg=KW tier=q to=600 mem=4 unwind=24 opts=nomem covers=1 funcs=wire::TcpRepr::emit;wire::TcpPacket::fill_checksum;wire::TcpOption::emit bounds=two_SACK_blocks_(slots_0_and_2),_3_payload_bytes;_first_block_and_left_edge_of_second_symbolic_(6_words)
+    #[kani::proof]
+    pub(crate) fn emit_valid_tcp4_w5() {
+        emit_valid_tcp(false, 0, 0, 0, 0x0fff, 0, 2, false, 3, false);
+    }
+
+    // @harness props=C08 cfg=KW tier=q to=600 mem=4 unwind=24 opts=nomem covers=1 funcs=wire::TcpRepr::emit;wire::TcpPacket::fill_checksum;wire::TcpOption::emit bounds=two_SACK_blocks,_3_payload_bytes;_right_edge_of_second_block,_payload,_control_flag_symbolic
+    #[kani::proof]
+    pub(crate) fn emit_valid_tcp4_w6() {
+        emit_valid_tcp(false, 0, 0, 0, 0xf000, 0x7, 2, true, 3, false);
+    }
+
+    // @harness props=C08 cfg=KW tier=q to=600 mem=4 unwind=24 opts=nomem covers=1 funcs=wire::TcpRepr::emit;wire::TcpPacket::fill_checksum bounds=no_options,_4_payload_bytes;_source_bytes_0..12_symbolic
+    #[kani::proof]
+    pub(crate) fn emit_valid_tcp6_w1() {
+        emit_valid_tcp(true, 0x0fff, 0, 0, 0, 0, 0, false, 4, false);
+    }
+
+    // @harness props=C08 cfg=KW tier=q to=600 mem=4 unwind=24 opts=nomem covers=1 funcs=wire::TcpRepr::emit;wire::TcpPacket::fill_checksum bounds=no_options,_4_payload_bytes;_source_bytes_12..16_and_destination_bytes_0..8_symbolic
+    #[kani::proof]
+    pub(crate) fn emit_valid_tcp6_w2() {
+        emit_valid_tcp(true, 0xf000, 0x00ff, 0, 0, 0, 0, false, 4, false);
+    }
+
+    // @harness props=C08 cfg=KW tier=q to=600 mem=4 unwind=24 opts=nomem covers=1 funcs=wire::TcpRepr::emit;wire::TcpPacket::fill_checksum bounds=no_options,_4_payload_bytes;_destination_bytes_8..16_and_both_ports_symbolic
+    #[kani::proof]
+    pub(crate) fn emit_valid_tcp6_w3() {
+        emit_valid_tcp(true, 0, 0xff00, 0x000f, 0, 0, 0, false, 4, false);
+    }
+
+    // @harness props=C08 cfg=KW tier=q to=600 mem=4 unwind=24 opts=nomem covers=1 funcs=wire::TcpRepr::emit;wire::TcpPacket::fill_checksum bounds=no_options,_payload_length_0..=5_symbolic;_seq,_window,_payload_0..5,_control_flag_symbolic
+    #[kani::proof]
+    pub(crate) fn emit_valid_tcp6_w4() {
+        emit_valid_tcp(true, 0, 0, 0x30f0, 0, 0x1f, 0, true, 5, true);
+    }
+
+    // transmit checksumming switched off: the crate documents "a consistently zeroed checksum"
+    // @harness props=C08 cfg=KW tier=q to=600 mem=4 unwind=24 opts=nomem covers=1 funcs=wire::Ipv4Repr::emit;wire::Icmpv4Repr::emit;wire::Icmpv6Repr::emit;wire::UdpRepr::emit;wire::TcpRepr::emit bounds=per_protocol_Checksum::None_or_Checksum::Rx;_arbitrary_stale_buffer_contents;_ports/ident/seq_symbolic;_UDP/TCP/ICMPv6_over_a_symbolic_choice_of_IPv4_or_IPv6
+    #[kani::proof]
+    pub(crate) fn caps_tx_off_zero_field() {
+        let v6: bool = kani::any();
+        let src = SRC_FIX;
+        let dst = DST_FIX;
+        let mut caps = ChecksumCapabilities::default();
+        caps.ipv4 = tx_off();
+        caps.icmpv4 = tx_off();
+        caps.icmpv6 = tx_off();
+        caps.udp = tx_off();
+        caps.tcp = tx_off();
+        let b = ipv4_emit(0xf00, false, &caps);
+        assert!(b[10] == 0 && b[11] == 0, "prop:c08_tx_off_ipv4_checksum_field_zeroed");
+        let mut e: [u8; 16] = kani::any();
+        echo_emit(v6, &src, &dst, 0xf, 0, 4, &caps, &mut e);
+        assert!(e[2] == 0 && e[3] == 0, "prop:c08_tx_off_icmp_checksum_field_zeroed");
+        let mut u: [u8; 16] = kani::any();
+        udp_emit(v6, &src, &dst, 0xf, 0, 4, &caps, &mut u);
+        assert!(u[6] == 0 && u[7] == 0, "prop:c08_tx_off_udp_checksum_field_zeroed");
+        let mut t: [u8; 48] = kani::any();
+        tcp_emit(v6, &src, &dst, 0xf, 0, 0, 0, true, 4, &caps, &mut t);
+        assert!(t[16] == 0 && t[17] == 0, "prop:c08_tx_off_tcp_checksum_field_zeroed");
+        kani::cover!(v6 && matches!(caps.udp, Checksum::Rx) && matches!(caps.tcp, Checksum::None), "mixed settings over IPv6");
+    }
+
+    // receive checksumming switched off ("ignore checksum"): any checksum field is accepted
+    // @harness props=C08 cfg=KW tier=q to=600 mem=4 unwind=24 opts=nomem covers=1 funcs=wire::Ipv4Repr::parse;wire::Icmpv4Repr::parse;wire::Icmpv6Repr::parse;wire::UdpRepr::parse;wire::TcpRepr::parse bounds=per_protocol_Checksum::None_or_Checksum::Tx;_arbitrary_checksum_field;_fixed_well-formed_packets;_symbolic_choice_of_IPv4_or_IPv6
+    #[kani::proof]
+    pub(crate) fn caps_rx_off_accepts_any_field() {
+        let v6: bool = kani::any();
+        let src = SRC_FIX;
+        let dst = DST_FIX;
+        let tx = ChecksumCapabilities::ignored();
+        let mut caps = ChecksumCapabilities::default();
+        caps.ipv4 = rx_off();
+        caps.icmpv4 = rx_off();
+        caps.icmpv6 = rx_off();
+        caps.udp = rx_off();
+        caps.tcp = rx_off();
+        let c: [u8; 2] = kani::any();
+        let mut b = ipv4_emit(0, true, &tx);
+        b[10] = c[0];
+        b[11] = c[1];
+        assert!(Ipv4Repr::parse(&Ipv4Packet::new_unchecked(&b[..]), &caps).is_ok(), "prop:c08_rx_off_ipv4_checksum_ignored");
+        let mut e = [0u8; 16];
+        let n = echo_emit(v6, &src, &dst, 0, 0, 4, &tx, &mut e);
+        e[2] = c[0];
+        e[3] = c[1];
+        assert!(echo_parse_ok(v6, &src, &dst, &e[..n], &caps), "prop:c08_rx_off_icmp_checksum_ignored");
+        let mut u = [0u8; 16];
+        let n = udp_emit(v6, &src, &dst, 0, 0, 4, &tx, &mut u);
+        u[6] = c[0];
+        u[7] = c[1];
+        assert!(udp_parse_ok(v6, &src, &dst, &u[..n], &caps), "prop:c08_rx_off_udp_checksum_ignored");
+        let mut t = [0u8; 48];
+        let n = tcp_emit(v6, &src, &dst, 0, 0, 0, 0, false, 4, &tx, &mut t);
+        t[16] = c[0];
+        t[17] = c[1];
+        assert!(tcp_parse_ok(v6, &src, &dst, &t[..n], &caps), "prop:c08_rx_off_tcp_checksum_ignored");
+        kani::cover!(v6 && c[0] == 0x5a, "arbitrary field over IPv6");
+    }
+
+    // ================================================================== (c) receive side
+
+    /// strict = parse with checksums on, lax = parse with checksums ignored, ok = reference verdict
+    fn rx_obligations(ok: bool, strict: bool, lax: bool) {
+        assert!(ok || !strict, "prop:c08_packet_with_bad_checksum_rejected");
+        assert!(!(ok && lax) || strict, "prop:c08_valid_checksum_not_rejected");
+        assert!(lax || !strict, "prop:c08_checksum_check_only_rejects");
+    }
+
+    fn reject_ipv4(mask: u32) {
+        let mut buf = ipv4_emit(mask, true, &ChecksumCapabilities::default());
+        corrupt(&mut buf, 20);
+        let ok = ref_ipv4_ok(&buf);
+        let strict = Ipv4Repr::parse(&Ipv4Packet::new_unchecked(&buf[..]), &ChecksumCapabilities::default()).is_ok();
+        let lax = Ipv4Repr::parse(&Ipv4Packet::new_unchecked(&buf[..]), &ChecksumCapabilities::ignored()).is_ok();
+        rx_obligations(ok, strict, lax);
+        kani::cover!(!ok && lax, "mask made the checksum fail on an otherwise acceptable header");
+        kani::cover!(ok && strict, "checksum-preserving two-byte change: parse Ok reached");
+    }
+
+    // @harness props=C08 cfg=KW tier=q to=600 mem=4 unwind=16 opts=nomem covers=2 funcs=wire::Ipv4Repr::parse;wire::Ipv4Packet::verify_checksum bounds=emitted_header_(source_address_symbolic)_+_8_payload_bytes;_non-zero_XOR_mask_on_1_or_2_header_bytes_at_symbolic_positions_0..20
+    #[kani::proof]
+    pub(crate) fn reject_invalid_ipv4() {
+        reject_ipv4(0x00f);
+    }
+
+    // @harness props=C08 cfg=KW tier=q to=600 mem=4 unwind=16 opts=nomem covers=2 funcs=wire::Ipv4Repr::parse;wire::Ipv4Packet::verify_checksum bounds=emitted_header_(destination,_protocol,_hop_limit_symbolic)_+_8_payload_bytes;_arbitrary_checksum_field
+    #[kani::proof]
+    pub(crate) fn accept_implies_valid_ipv4() {
+        let mut buf = ipv4_emit(0x3f0, true, &ChecksumCapabilities::default());
+        buf[10] = kani::any();
+        buf[11] = kani::any();
+        let ok = ref_ipv4_ok(&buf);
+        let strict = Ipv4Repr::parse(&Ipv4Packet::new_unchecked(&buf[..]), &ChecksumCapabilities::default()).is_ok();
+        assert!(ok || !strict, "prop:c08_packet_with_bad_checksum_rejected");
+        assert!(!ok || strict, "prop:c08_valid_checksum_not_rejected");
+        kani::cover!(strict, "parse Ok reached");
+        kani::cover!(!ok, "wrong checksum field");
+    }
+
+    fn reject_l4(proto: u8, v6: bool, smask: u32, dmask: u32, fmask: u32, arbitrary_field: bool) {
+        let src = pick(SRC_FIX, smask);
+        let dst = pick(DST_FIX, dmask);
+        let caps = ChecksumCapabilities::default();
+        let lax_caps = ChecksumCapabilities::ignored();
+        let mut small = [0u8; 16];
+        let mut big = [0u8; 48];
+        let (n, cks) = match proto {
+            1 => (echo_emit(v6, &src, &dst, fmask, 0, 4, &caps, &mut small), 2),
+            17 => (udp_emit(v6, &src, &dst, fmask, 0, 4, &caps, &mut small), 6),
+            _ => (tcp_emit(v6, &src, &dst, fmask, 0, 0, 0, false, 4, &caps, &mut big), 16),
+        };
+        let seg: &mut [u8] = if proto == 6 { &mut big[..n] } else { &mut small[..n] };
+        if arbitrary_field {
+            seg[cks] = kani::any();
+            seg[cks + 1] = kani::any();
+        } else {
+            corrupt(seg, n);
+        }
+        let field = be16(seg[cks], seg[cks + 1]);
+        let (ok, strict, lax) = match proto {
+            1 => (ref_echo_ok(v6, &src, &dst, seg), echo_parse_ok(v6, &src, &dst, seg, &caps), echo_parse_ok(v6, &src, &dst, seg, &lax_caps)),
+            17 => {
+                // the 'no checksum' value: allowed over IPv4 (checked here), forbidden over IPv6
+                // (obligation of `udp6_zero_checksum_rejected`, excluded here so that one defect
+                // shows up in one harness)
+                if v6 {
+                    kani::assume(field != 0);
+                }
+                let r = ref_udp_ok(v6, &src, &dst, seg) || (!v6 && field == 0 && be16(seg[4], seg[5]) as usize >= 8 && be16(seg[4], seg[5]) as usize <= n);
+                (r, udp_parse_ok(v6, &src, &dst, seg, &caps), udp_parse_ok(v6, &src, &dst, seg, &lax_caps))
+            }
+            _ => (ref_l4_ok(v6, &src, &dst, 6, seg), tcp_parse_ok(v6, &src, &dst, seg, &caps), tcp_parse_ok(v6, &src, &dst, seg, &lax_caps)),
+        };
+        rx_obligations(ok, strict, lax);
+        kani::cover!(!ok && lax, "mask made the checksum fail on an otherwise acceptable packet");
+        kani::cover!(ok && strict, "parse Ok reached");
+    }
+
+    // @harness props=C08 cfg=KW tier=q to=600 mem=4 unwind=16 opts=nomem covers=2 funcs=wire::Icmpv4Repr::parse;wire::Icmpv4Packet::verify_checksum bounds=emitted_echo_(ident_symbolic,_4_data_bytes);_non-zero_XOR_mask_on_1_or_2_bytes_at_symbolic_positions_0..12
+    #[kani::proof]
+    pub(crate) fn reject_invalid_icmpv4() {
+        reject_l4(1, false, 0, 0, 0x3, false);
+    }
+
+    // @harness props=C08 cfg=KW tier=q to=600 mem=4 unwind=24 opts=nomem covers=2 funcs=wire::Icmpv6Repr::parse;wire::Icmpv6Packet::verify_checksum bounds=emitted_echo_(ident_symbolic,_4_data_bytes);_non-zero_XOR_mask_on_1_or_2_bytes_at_symbolic_positions_0..12
+    #[kani::proof]
+    pub(crate) fn reject_invalid_icmpv6() {
+        reject_l4(1, true, 0, 0, 0x3, false);
+    }
+
+    // @harness props=C08 cfg=KW tier=q to=600 mem=4 unwind=16 opts=nomem covers=2 funcs=wire::UdpRepr::parse;wire::UdpPacket::verify_checksum bounds=emitted_datagram_(source_port_symbolic,_4_payload_bytes);_non-zero_XOR_mask_on_1_or_2_bytes_at_symbolic_positions_0..12
+    #[kani::proof]
+    pub(crate) fn reject_invalid_udp4() {
+        reject_l4(17, false, 0, 0, 0x3, false);
+    }
+
+    // @harness props=C08 cfg=KW tier=q to=600 mem=4 unwind=24 opts=nomem covers=2 funcs=wire::UdpRepr::parse;wire::UdpPacket::verify_checksum bounds=emitted_datagram_(source_port_symbolic,_4_payload_bytes);_non-zero_XOR_mask_on_1_or_2_bytes_at_symbolic_positions_0..12;_resulting_checksum_field_non-zero
+    #[kani::proof]
+    pub(crate) fn reject_invalid_udp6() {
+        reject_l4(17, true, 0, 0, 0x3, false);
+    }
+
+    // @harness props=C08 cfg=KW tier=q to=600 mem=4 unwind=16 opts=nomem covers=2 funcs=wire::TcpRepr::parse;wire::TcpPacket::verify_checksum bounds=emitted_segment_(source_port_symbolic,_no_options,_4_payload_bytes);_non-zero_XOR_mask_on_1_or_2_bytes_at_symbolic_positions_0..24
+    #[kani::proof]
+    pub(crate) fn reject_invalid_tcp4() {
+        reject_l4(6, false, 0, 0, 0x3, false);
+    }
+
+    // @harness props=C08 cfg=KW tier=q to=600 mem=4 unwind=24 opts=nomem covers=2 funcs=wire::TcpRepr::parse;wire::TcpPacket::verify_checksum bounds=emitted_segment_(source_port_symbolic,_no_options,_4_payload_bytes);_non-zero_XOR_mask_on_1_or_2_bytes_at_symbolic_positions_0..24
+    #[kani::proof]
+    pub(crate) fn reject_invalid_tcp6() {
+        reject_l4(6, true, 0, 0, 0x3, false);
+    }
+
+    // @harness props=C08 cfg=KW tier=q to=600 mem=4 unwind=16 opts=nomem covers=2 funcs=wire::Icmpv4Repr::parse;wire::Icmpv4Packet::verify_checksum bounds=emitted_echo_(ident,_seq_symbolic,_4_data_bytes);_arbitrary_checksum_field
+    #[kani::proof]
+    pub(crate) fn accept_implies_valid_icmpv4() {
+        reject_l4(1, false, 0, 0, 0xf, true);
+    }
+
+    // @harness props=C08 cfg=KW tier=q to=600 mem=4 unwind=24 opts=nomem covers=2 funcs=wire::Icmpv6Repr::parse;wire::Icmpv6Packet::verify_checksum bounds=emitted_echo_(ident,_seq,_source_bytes_14..16,_destination_bytes_0..2_symbolic,_4_data_bytes);_arbitrary_checksum_field
+    #[kani::proof]
+    pub(crate) fn accept_implies_valid_icmpv6() {
+        reject_l4(1, true, 0xc000, 0x0003, 0xf, true);
+    }
+
+    // @harness props=C08 cfg=KW tier=q to=600 mem=4 unwind=16 opts=nomem covers=2 funcs=wire::UdpRepr::parse;wire::UdpPacket::verify_checksum bounds=emitted_datagram_(ports,_source_bytes_2..4,_destination_bytes_0..2_symbolic,_4_payload_bytes);_arbitrary_checksum_field_(zero_accepted_over_IPv4)
+    #[kani::proof]
+    pub(crate) fn accept_implies_valid_udp4() {
+        reject_l4(17, false, 0xc, 0x3, 0xf, true);
+    }
+
+    // @harness props=C08 cfg=KW tier=q to=600 mem=4 unwind=24 opts=nomem covers=2 funcs=wire::UdpRepr::parse;wire::UdpPacket::verify_checksum bounds=emitted_datagram_(ports,_source_bytes_14..16,_destination_bytes_0..2_symbolic,_4_payload_bytes);_arbitrary_non-zero_checksum_field
+    #[kani::proof]
+    pub(crate) fn accept_implies_valid_udp6() {
+        reject_l4(17, true, 0xc000, 0x0003, 0xf, true);
+    }
+
+    // @harness props=C08 cfg=KW tier=q to=600 mem=4 unwind=16 opts=nomem covers=2 funcs=wire::TcpRepr::parse;wire::TcpPacket::verify_checksum bounds=emitted_segment_(ports,_source_bytes_2..4,_destination_bytes_0..2_symbolic,_no_options,_4_payload_bytes);_arbitrary_checksum_field
+    #[kani::proof]
+    pub(crate) fn accept_implies_valid_tcp4() {
+        reject_l4(6, false, 0xc, 0x3, 0xf, true);
+    }
+
+    // @harness props=C08 cfg=KW tier=q to=600 mem=4 unwind=24 opts=nomem covers=2 funcs=wire::TcpRepr::parse;wire::TcpPacket::verify_checksum bounds=emitted_segment_(ports,_source_bytes_14..16,_destination_bytes_0..2_symbolic,_no_options,_4_payload_bytes);_arbitrary_checksum_field
+    #[kani::proof]
+    pub(crate) fn accept_implies_valid_tcp6() {
+        reject_l4(6, true, 0xc000, 0x0003, 0xf, true);
+    }
+
+    // RFC 8200 section 8.1: over IPv6 the UDP checksum is not optional; a datagram whose checksum
+    // field is zero must be discarded.  Only UDP over IPv4 may carry the 'no checksum' value.
+    // @harness props=C08 cfg=KW tier=q to=600 mem=4 unwind=24 opts=nomem covers=1 funcs=wire::UdpRepr::parse;wire::UdpPacket::verify_checksum bounds=emitted_datagram_(ports_symbolic,_4_payload_bytes);_checksum_field_zero;_IPv4_or_IPv6_(symbolic)
+    #[kani::proof]
+    pub(crate) fn udp6_zero_checksum_rejected() {
+        let v6: bool = kani::any();
+        let src = SRC_FIX;
+        let dst = DST_FIX;
+        let caps = ChecksumCapabilities::default();
+        let mut buf = [0u8; 16];
+        let n = udp_emit(v6, &src, &dst, 0xf, 0, 4, &caps, &mut buf);
+        buf[6] = 0;
+        buf[7] = 0;
+        let strict = udp_parse_ok(v6, &src, &dst, &buf[..n], &caps);
+        if v6 {
+            assert!(!strict, "prop:c08_only_udp_over_ipv4_may_omit_checksum");
+        } else {
+            assert!(strict, "prop:c08_udp_over_ipv4_may_omit_checksum");
+        }
+        kani::cover!(v6, "zero checksum field over IPv6");
     }
 }
